@@ -1,4 +1,5 @@
-(* Generic runner for an extracted model:  modelrun_Cxx < cases.txt  — one sx value per line in, one per line out.
+(* The extraction root (the last `run*` of model.ml = the `run` of Run/Cxx.v, whatever runs it imports) is bound in the
+   generated entry.ml.  Generic runner for an extracted model:  modelrun_Cxx < cases.txt  — one sx value per line in, one per line out.
    Text format: integers, #hex byte strings, ( ... ) lists.  Trusted glue (cross-checked against vm_compute). *)
 open Model
 
@@ -42,7 +43,7 @@ let () =
     while true do
       let line = input_line stdin in
       if String.trim line <> "" then begin
-        let out = run (parse line) in
+        let out = Entry.run (parse line) in
         let buf = Buffer.create 256 in
         print buf out; print_endline (Buffer.contents buf)
       end
